@@ -71,4 +71,15 @@ def getU8 (buf : List UInt8) : Option (Nat × List UInt8) :=
 def splitTo (buf : List UInt8) (n : Nat) : Option (List UInt8 × List UInt8) :=
   if n ≤ buf.length then some (buf.take n, buf.drop n) else none
 
+/-- `n` as `w` big-endian bytes (most significant first). -/
+def toBe : Nat → Nat → List UInt8
+  | 0, _ => []
+  | w + 1, n => toBe w (n / 256) ++ [UInt8.ofNat (n % 256)]
+
+/-- `BufMut::put_u64` (big-endian). -/
+def putU64 (buf : List UInt8) (x : Nat) : List UInt8 := buf ++ toBe 8 x
+
+/-- `BufMut::put_u8`. -/
+def putU8 (buf : List UInt8) (x : Nat) : List UInt8 := buf ++ [UInt8.ofNat x]
+
 end Selium.Rs
